@@ -758,6 +758,8 @@ def run_nn_hals(ctx, n_runs):
                 n2 = 0.5 * float(np.sum(X ** 2))
                 history_check(ctx, entry, inputs, [math.sqrt(max(o, 0.0) / n2) for o in objs] if sparsity is None else [o / n2 for o in objs],
                               what="objective recomputed from prefix runs")
+                if sparsity is None:
+                    reported_matches(ctx, entry, inputs, errs, [math.sqrt(max(o, 0.0) / n2) for o in objs])
         for hb in cap.halsruns:
             hals_float_check(ctx, entry + " (inner hals_nnls)", inputs, hb)
         if sparsity is None:
